@@ -3,6 +3,7 @@ From BBF Require Import Base.Prelude Base.Names Base.Bits Spec.Sem
      Model.Expr Model.Table Model.LibBdd Model.Bdd
      Proofs.ExprProofs Proofs.TableProofs Proofs.QuantProofs Proofs.NfProofs Proofs.DdProofs Proofs.BddProofs Proofs.BddOps
      Proofs.ConvProofs Proofs.RenderProofs Proofs.EnumProofs.
+From BBF Require Import Model.Lexer Model.Parser Model.Display Model.Render Model.Csv Model.Prog Proofs.ProgProofs Proofs.CompareProofs.
 Theorem C04_expr_equiv : forall a b, e_equiv a b = true <-> forall v, sem v a = sem v b.
 Proof. exact e_equiv_spec. Qed.
 Print Assumptions C04_expr_equiv.
@@ -39,3 +40,36 @@ Proof.
   - apply Bool.not_true_iff_false in E. apply E. apply e_equiv_spec. intros v. rewrite Ha, Hb. apply (proj1 (e_equiv_spec a' b') E').
 Qed.
 Print Assumptions C04_expr_depends_only_on_function.
+
+(* ---- objects of any representation ---- *)
+
+Theorem C04_objects_equiv : forall x y, owf x -> owf y -> obj_kind x = obj_kind y ->
+  exists r, obj_equiv x y = Ok r /\ (r = true <-> forall v, osem x v = osem y v).
+Proof. exact obj_equiv_spec. Qed.
+Print Assumptions C04_objects_equiv.
+
+Theorem C04_objects_implied : forall x y, owf x -> owf y -> obj_kind x = obj_kind y ->
+  exists r, obj_implied_by x y = Ok r /\ (r = true <-> forall v, osem y v = true -> osem x v = true).
+Proof. exact obj_implied_by_spec. Qed.
+Print Assumptions C04_objects_implied.
+
+(* the answers depend only on the two functions: not on the representation, on how the objects were built, or on
+   variables they merely declare *)
+Theorem C04_answers_depend_only_on_functions : forall x y x' y',
+  owf x -> owf y -> owf x' -> owf y' -> obj_kind x = obj_kind y -> obj_kind x' = obj_kind y' ->
+  (forall v, osem x v = osem x' v) -> (forall v, osem y v = osem y' v) ->
+  obj_equiv x y = obj_equiv x' y' /\ obj_implied_by x y = obj_implied_by x' y'.
+Proof. exact compare_depends_only_on_functions. Qed.
+Print Assumptions C04_answers_depend_only_on_functions.
+
+Theorem C04_equivalence_is_mutual_implication : forall x y, owf x -> owf y -> obj_kind x = obj_kind y ->
+  exists r s t, obj_equiv x y = Ok r /\ obj_implied_by x y = Ok s /\ obj_implied_by y x = Ok t /\ r = s && t.
+Proof. exact equiv_is_mutual_implication. Qed.
+Print Assumptions C04_equivalence_is_mutual_implication.
+
+(* a | (a & b) against the table of a over {a}: different representations, different declared inputs, same function *)
+Example C04_example :
+  let e := Or [Lit [97%N]; And [Lit [97%N]; Lit [98%N]]] in
+  let t := {| t_inputs := [[97%N]]; t_outputs := [false; true] |} in
+  e_equiv e (Lit [97%N]) = true /\ t_equiv (table_of_expr e) t = true.
+Proof. split; reflexivity. Qed.
